@@ -106,6 +106,11 @@ func classify(d *astx.Dumper, root ast.Node, m int, got []string, panicked bool,
 	pruned := map[int]bool{}
 	var stack []*frame
 	lastKind := ""
+	if panicked && len(got) > 0 && got[len(got)-1] == "^" {
+		// Walk was handed a nil child: the visitor saw nil, then Walk panicked; the culprit is
+		// the innermost open node
+		got = got[:len(got)-1]
+	}
 	for _, e := range got {
 		if e == "^" {
 			if len(stack) == 0 {
@@ -133,6 +138,9 @@ func classify(d *astx.Dumper, root ast.Node, m int, got []string, panicked bool,
 		stack = append(stack, &frame{id: id})
 	}
 	if panicked {
+		if len(stack) > 0 {
+			lastKind = astx.KindName(byID[stack[len(stack)-1].id])
+		}
 		return "panic:" + lastKind, "Walk panicked while visiting a " + lastKind
 	}
 	for len(stack) > 0 { // pruned nodes and unclosed ones
